@@ -14,14 +14,42 @@ def build(names, rnd):
     """zip archive with the given entry names; contents derived from the name; stored and deflated entries mixed"""
     bio = io.BytesIO()
     contents = {}
-    with zipfile.ZipFile(bio, "w") as z:
+    _VARIANT[0] += 1
+    variant = _VARIANT[0] % 4
+    # variants of the container met in real APKs: 1 = written as a stream (sizes in data descriptors behind the data, flag bit 3),
+    # 2 = archive comment and extra fields (alignment padding) in the local headers, 3 = one large multi-block deflated entry
+    out = _Stream(bio) if variant == 1 else bio
+    with zipfile.ZipFile(out, "w") as z:
+        if variant == 2:
+            z.comment = b"signed by nobody"
         for i, n in enumerate(names):
             data = (("content of %s " % n) * (1 + i % 5)).encode("utf-8") + bytes(range(i % 7))
             if (i + len(names)) % 4 == 3:
                 data = b""              # zero-length entries (stored and deflated) are entries too
+            if variant == 3 and i == 0:
+                data = bytes(rnd.randrange(256) for _ in range(70000)) + data
             contents[n] = data
-            z.writestr(zipfile.ZipInfo(n), data, compress_type=zipfile.ZIP_DEFLATED if i % 2 else zipfile.ZIP_STORED)
+            info = zipfile.ZipInfo(n)
+            if variant == 2:
+                info.extra = b"\x35\xd9" + bytes([4 + i % 3, 0]) + b"\x04\x00" + b"\0" * (2 + i % 3)      # the alignment extra field zipalign writes
+            z.writestr(info, data, compress_type=zipfile.ZIP_DEFLATED if i % 2 else zipfile.ZIP_STORED)
     return bio.getvalue(), contents
+
+
+_VARIANT = [0]
+
+
+class _Stream:
+    """write-only, not seekable: zipfile then sets flag bit 3 and writes a data descriptor after every entry"""
+
+    def __init__(self, f):
+        self.f = f
+
+    def write(self, b):
+        return self.f.write(b)
+
+    def flush(self):
+        pass
 
 
 _ORDER = [0]
